@@ -5,7 +5,7 @@ for l in open('/verif/properties.jsonl'):
     p=json.loads(l)
     if p['id']==pid: break
 d='/tmp/mut-'+pid
-print(f"""You are working in a scratch git worktree of the Go project free5gc/chf (5G Charging Function) at {d}. Work ONLY inside {d}. Do not read or modify /repo or /verif (they are out of bounds for this task), and do not commit anything.
+print(f"""You are working in a scratch git worktree of the Go project free5gc/chf (5G Charging Function) at {d}. Work ONLY inside {d}. Do not read or modify /repo or /verif (they are out of bounds for this task), do not commit anything, and never use `git stash` (the stash is shared with other worktrees of the same repository; use `git diff > file` and `git checkout -- .` instead).
 
 Environment: sealed offline sandbox. In every shell call first run: export GOFLAGS=-mod=mod GOPROXY=off GOSUMDB=off GOTOOLCHAIN=local . The default `go` is 1.23.5. The repository's test suite is `cd {d} && go test -vet=off -count=1 ./...` and passes on the unmodified tree. There is no MongoDB, no network beyond loopback; TCP on 127.0.0.1 works. Nothing can be downloaded.
 
@@ -16,7 +16,7 @@ The property under study (it holds, or is intended to hold, on the unmodified tr
   Quantified over: {p['quantifier']['text']}
   Code it is anchored in: {', '.join(p['anchors']['files'])}
 
-Your task: produce up to TWO different, independent changes to the *source code* of free5gc/chf (non-test files) each of which BREAKS this property while the project still compiles and the existing test suite still passes. The changes must be realistic - the kind of slip a developer could make in a refactoring or feature patch (wrong variable, off-by-one, missing update on one path, reordered statements, a cache or shortcut that is wrong in a corner, a condition that is too wide or too narrow, two sites that each look fine alone). Each must need something SPECIFIC to manifest: a particular multi-step sequence of operations, a particular interleaving or timing, an unusual input value or boundary, a fault at a particular point - NOT something that the very first ordinary request/input would expose at once. Prefer subtle over blatant. The two changes should hit different code sites / mechanisms.
+Your task: produce up to TWO different, independent changes to the *source code* of free5gc/chf (non-test files) each of which BREAKS this property while the project still compiles and the existing test suite still passes. The changes must be realistic - the kind of slip a developer could make in a refactoring or feature patch (wrong variable, off-by-one, missing update on one path, reordered statements, a cache or shortcut that is wrong in a corner, a condition that is too wide or too narrow, two sites that each look fine alone). Each must need something SPECIFIC to manifest: a particular multi-step sequence of operations, a particular interleaving or timing, an unusual input value or boundary, a fault at a particular point - NOT something that the very first ordinary request/input would expose at once. Prefer subtle over blatant. The two changes should hit different code sites / mechanisms. The obvious sites (the central arithmetic of a function, its main happy path) have been tried before: look for less-trodden ground - error and time-out paths, rarely taken branches, the interaction of two modules, configuration-dependent behaviour, state that outlives a request or a session, retries and retransmissions, limits and counters, helper functions shared by several callers.
 
 For each change also write a demonstration: a Go test (or small program) that FAILS with the change applied and PASSES on the unmodified tree. The demonstration may use any approach you like (call internal functions from an in-package _test.go file, stub the database/network, start the in-process Diameter servers on loopback, etc.).
 
